@@ -265,7 +265,8 @@ typedef struct hist {
     step_t st[MAXSTEPS];
     cs_scenario sc;
     int merr;
-    long K;
+    long K;	/* libvna-site allocations of the unfaulted run */
+    long Ky;	/* libyaml-site allocations of the unfaulted run */
     obs_t ref;
 } hist_t;
 
@@ -1901,11 +1902,37 @@ static const obs_t *g_ref;
 static int g_mismatch;
 static char g_why[300];
 
+static int g_mode;	/* 0: libvna allocation sites fail, 1: libyaml's */
+static long g_yaml_internal;	/* leaks inside libyaml's own error paths */
+
 static void leak_check(vf_result *r, unsigned long mark, const char *where)
 {
     char sites[400];
     int n = vf_leak_report(mark, sites, sizeof(sites));
+    int yp = vf_yaml_live(0), ye = vf_yaml_live(1), yd = vf_yaml_live(2);
 
+    vf_yaml_forget();
+    /* what libvna owes libyaml is that every parser, emitter and document
+       it initialised is deleted again */
+    if (yp + ye + yd > 0) {
+	char sig[200];
+	snprintf(sig, sizeof(sig), "yaml-not-deleted:%s", where);
+	vf_fail(r, sig, "%d yaml_parser_t, %d yaml_emitter_t and %d "
+		"yaml_document_t initialised and never deleted (fault in %s)",
+		yp, ye, yd, where);
+	vf_leak_discard(mark);
+	return;
+    }
+    /*
+     * With the fault inside libyaml, blocks that libyaml itself loses on
+     * its error paths although libvna deleted every parser, emitter and
+     * document are libyaml's, not libvna's: counted, not reported.
+     */
+    if (n > 0 && g_mode == 1 && vf_leak_count_origin(mark, 0) == 0) {
+	++g_yaml_internal;
+	vf_leak_discard(mark);
+	return;
+    }
     if (n > 0) {
 	char sig[200], first[120];
 	snprintf(first, sizeof(first), "%s", sites);
@@ -1923,6 +1950,7 @@ static void leak_check(vf_result *r, unsigned long mark, const char *where)
 /*
  * returns 0 when the history ran to its end (observation in *o)
  */
+
 static int run_history(hist_t *h, long k1, long k2, obs_t *o, runinfo_t *ri,
 	vf_result *r)
 {
@@ -1949,6 +1977,7 @@ static int run_history(hist_t *h, long k1, long k2, obs_t *o, runinfo_t *ri,
     cleanup_files();
 
     mark = vf_exec_begin();
+    vf_alloc_mode = g_mode;
     vf_alloc_fail_at = k1;
     vf_alloc_fail_at2 = k2;
 
@@ -2096,6 +2125,7 @@ static int run_history(hist_t *h, long k1, long k2, obs_t *o, runinfo_t *ri,
     ri->K = vf_alloc_calls;
     vf_alloc_fail_at = 0;
     vf_alloc_fail_at2 = 0;
+    vf_alloc_mode = 0;
     observe(c, o);
     completed = 1;
     g_mismatch = 0;
@@ -2112,6 +2142,7 @@ static int run_history(hist_t *h, long k1, long k2, obs_t *o, runinfo_t *ri,
 out:
     vf_alloc_fail_at = 0;
     vf_alloc_fail_at2 = 0;
+    vf_alloc_mode = 0;
     teardown(c);
     cleanup_files();
     if (r->status != VF_VIOL)
@@ -2127,6 +2158,7 @@ out:
 #define PAIR_KMAX 300
 static long single_base[MAXH + 1];
 static long pair_base[MAXH + 1];
+static long yaml_base[MAXH + 1];
 static int inited;
 
 static void init(int tier)
@@ -2151,14 +2183,24 @@ static void init(int tier)
 	    h->K = 0;
 	} else {
 	    h->K = ri.K;
+	    /* the same run counting libyaml's allocations */
+	    static obs_t scratch;
+	    vf_result *r2 = calloc(1, sizeof(*r2));
+	    g_mode = 1;
+	    if (run_history(h, 0, 0, &scratch, &ri, r2) == 0 &&
+		    r2->status != VF_VIOL)
+		h->Ky = ri.K;
+	    g_mode = 0;
+	    free(r2);
 	}
 	vf_verbose = save;
 	free(r);
     }
     if (getenv("C12_LIST") != NULL)
 	for (int i = 0; i < NH; ++i)
-	    fprintf(stderr, "history %2d K=%5ld steps=%3d obs=%5d/%ld  %s\n", i,
-		    H[i].K, H[i].nsteps, H[i].ref.nd, H[i].ref.nx, H[i].name);
+	    fprintf(stderr, "history %2d K=%5ld Ky=%5ld steps=%3d obs=%5d/%ld  %s\n",
+		    i, H[i].K, H[i].Ky, H[i].nsteps, H[i].ref.nd, H[i].ref.nx,
+		    H[i].name);
     single_base[0] = 0;
     for (int i = 0; i < NH; ++i)
 	single_base[i + 1] = single_base[i] + H[i].K + 1;
@@ -2168,12 +2210,15 @@ static void init(int tier)
 	pair_base[i + 1] = pair_base[i] +
 	    ((tier >= 1 && K <= PAIR_KMAX && K >= 2) ? K - 1 : 0);
     }
+    yaml_base[0] = pair_base[NH];
+    for (int i = 0; i < NH; ++i)
+	yaml_base[i + 1] = yaml_base[i] + H[i].Ky;
 }
 
 static long count(int tier)
 {
     init(tier);
-    return pair_base[NH];
+    return yaml_base[NH];
 }
 
 /*
@@ -2201,7 +2246,7 @@ static int one_run(hist_t *h, int hi, long k1, long k2, vf_result *r,
 	    vf_fail(r, "driver:unfaulted", "unfaulted history is not clean");
 	    return -1;
 	}
-	if (ri->K != h->K) {
+	if (ri->K != (g_mode ? h->Ky : h->K)) {
 	    vf_fail(r, "driver:nondeterministic-K", "unfaulted history made "
 		    "%ld allocations, %ld at start-up", ri->K, h->K);
 	    return -1;
@@ -2219,11 +2264,11 @@ static int one_run(hist_t *h, int hi, long k1, long k2, vf_result *r,
 		 (ri->faulted_step[1] >= 0 &&
 		  (h->st[ri->faulted_step[1]].flags & F_INSERT))) ?
 		"nonatomic-list-insert" : "state", where);
-	vf_fail(r, sig, "allocation #%ld%s failing: after the ENOMEM failure "
+	vf_fail(r, sig, "%sallocation #%ld%s failing: after the ENOMEM failure "
 		"in %s (step %d) was survived, the call repeated and the "
 		"history completed, the final state is not that of the "
-		"unfaulted run: %s", k1, k2 ? " and a second one" : "", where,
-		fs, why);
+		"unfaulted run: %s", g_mode ? "libyaml " : "", k1,
+		k2 ? " and a second one" : "", where, fs, why);
 	return -1;
     }
     return 0;
@@ -2261,6 +2306,39 @@ static void run(int tier, long idx, vf_result *r)
 	    vf_outcome(r, "%s: %s", where, ri.failed_steps ?
 		    "ENOMEM, clean, repeat ok" :
 		    "fault absorbed, call succeeded");
+	return;
+    }
+    if (idx >= yaml_base[0]) {
+	/* one of the allocations libyaml makes on libvna's behalf fails */
+	for (hi = 0; idx >= yaml_base[hi + 1]; ++hi)
+	    ;
+	k1 = idx - yaml_base[hi] + 1;
+	hist_t *h = &H[hi];
+	vf_desc(r, "history %d [%s] Ky=%ld, failing libyaml allocation #%ld",
+		hi, h->name, h->Ky, k1);
+	if (vf_verbose)
+	    printf("history %d: %s\n", hi, h->name);
+	g_mode = 1;
+	long yi0 = g_yaml_internal;
+	int rc = one_run(h, hi, k1, 0, r, &ri);
+	g_mode = 0;
+	if (rc != 0) {
+	    vf_outcome(r, "violation");
+	    return;
+	}
+	const char *where = ri.faulted_step[0] >= 0 ?
+	    h->st[ri.faulted_step[0]].name : "(none)";
+	if (ri.nfaults > 0)
+	    r->nontrivial = 1;
+	if (ri.nfaults == 0)
+	    vf_outcome(r, "no fault landed");
+	else
+	    vf_outcome(r, "libyaml allocation in %s: %s%s", where,
+		    ri.failed_steps ? "ENOMEM, clean, repeat ok" :
+		    "fault absorbed, call succeeded",
+		    g_yaml_internal != yi0 ? " (libyaml lost blocks of its "
+		    "own; every parser, emitter and document was deleted)" :
+		    "");
 	return;
     }
     /* pairs: case = (history, k1); every k2 > k1 inside */
